@@ -459,7 +459,14 @@ impl BuiltInFunction {
                     format!("top vector index `{top}` could not be used to index (usize)")
                 })?;
 
-                Ok((Some(Primitive::Str(s[bottom..top].to_owned())), None))
+                let slice = s.get(bottom..top).with_context(|| {
+                    format!(
+                        "substring range `{bottom}..{top}` is not valid for a string of length {}",
+                        s.len()
+                    )
+                })?;
+
+                Ok((Some(Primitive::Str(slice.to_owned())), None))
             }
             Self::StrContains => {
                 let Some(Primitive::Str(s)) = arguments.first() else {
